@@ -7,6 +7,10 @@ import (
 	"strings"
 
 	"github.com/opsidian/parsley/data"
+	"github.com/opsidian/parsley/parser"
+	"github.com/opsidian/parsley/parsley"
+
+	"verifharness/internal/gram"
 
 	"verifharness/internal/run"
 )
@@ -268,6 +272,8 @@ func c15randOp(r *rand.Rand, p *c15pool, dom int) c15op {
 
 func c15exec(j run.Job, a *run.Acc) {
 	switch j.Family {
+	case "in-situ":
+		c15inSitu(j, a)
 	case "random":
 		r := rand.New(rand.NewSource(j.Seed))
 		for it := 0; it < j.N; it++ {
@@ -349,6 +355,95 @@ func c15exec(j run.Job, a *run.Acc) {
 	}
 }
 
+// c15inSitu: the sets and maps the PARSER itself produces (curtailing-parser sets, left-recursion contexts) are held
+// by probes while real left-recursive grammars are parsed and are re-read at the end of the parse: a persistent value
+// must still read the same, whatever the library did with it in between (cached it, united it, filtered by it).
+func c15inSitu(j run.Job, a *run.Acc) {
+	sub := run.Job{Family: j.S, Seed: j.Seed, N: j.N, P: j.P}
+	gramCases(sub, func(c GCase) {
+		if !a.Begin() {
+			return
+		}
+		env := gram.NewEnvAt(c.In, c.Before())
+		gd := gram.NewGuard(env.Base)
+		gd.MaxEvents, gd.MaxCalls, gd.NoAssert = 40000, 60000, true
+		type heldSet struct {
+			v    data.IntSet
+			want []int
+			by   string
+		}
+		type heldMap struct {
+			v    data.IntMap
+			want map[int]int
+			by   string
+		}
+		var sets []heldSet
+		var maps []heldMap
+		readSet := func(s data.IntSet) []int {
+			var out []int
+			s.Each(func(v int) { out = append(out, v) })
+			return out
+		}
+		readMap := func(m data.IntMap) map[int]int {
+			out := map[int]int{}
+			m.Each(func(k, v int) { out[k] = v })
+			return out
+		}
+		h := &gram.Hooks{Inside: gd.Inside, Outside: gd.Outside, MemoExpr: c.MemoExpr,
+			Around: func(e *gram.Expr, p parsley.Parser) parsley.Parser {
+				label := e.String()
+				return parser.Func(func(ctx *parsley.Context, lrc data.IntMap, pos parsley.Pos) (parsley.Node, data.IntSet, parsley.Error) {
+					gd.Tick(ctx)
+					if len(maps) < 3000 {
+						maps = append(maps, heldMap{lrc, readMap(lrc), label})
+					}
+					n, cp, err := p.Parse(ctx, lrc, pos)
+					if len(sets) < 3000 {
+						sets = append(sets, heldSet{cp, readSet(cp), label})
+					}
+					return n, cp, err
+				})
+			}}
+		b := gram.Build(c.G, h)
+		o := gram.Run(env, b.NTs[c.NT], c.Pos)
+		if o.Budget != "" || o.Panic != "" {
+			a.Count("in-situ: cases over budget (not judged)", 1)
+			return
+		}
+		a.Count("in-situ: parses monitored", 1)
+		a.Count("in-situ: curtailing sets and contexts held and re-read", int64(len(sets)+len(maps)))
+		nonEmpty := 0
+		for _, hs := range sets {
+			now := readSet(hs.v)
+			if len(hs.want) > 0 {
+				nonEmpty++
+			}
+			if fmt.Sprint(now) != fmt.Sprint(hs.want) || hs.v.Len() != len(hs.want) {
+				d := c.Describe()
+				d["returned_by"] = hs.by
+				d["set_at_return"] = hs.want
+				d["set_at_end_of_parse"] = now
+				a.Violate("in-situ-set-value-changed", "in-situ-set-value-changed", d)
+				return
+			}
+		}
+		for _, hm := range maps {
+			if now := readMap(hm.v); fmt.Sprint(now) != fmt.Sprint(hm.want) {
+				d := c.Describe()
+				d["passed_to"] = hm.by
+				d["context_at_call"] = fmt.Sprint(hm.want)
+				d["context_at_end_of_parse"] = fmt.Sprint(now)
+				a.Violate("in-situ-map-value-changed", "in-situ-map-value-changed", d)
+				return
+			}
+		}
+		if nonEmpty > 0 {
+			a.NonTrivial("insitu:" + c.Key())
+			a.Count("in-situ: parses with non-empty curtailing sets", 1)
+		}
+	})
+}
+
 func init() {
 	run.Register(&run.Check{
 		ID:    "C15",
@@ -363,6 +458,16 @@ func init() {
 			for i := 0; i < nrand; i++ {
 				jobs = append(jobs, run.Job{Family: "random", Seed: seed*1000 + int64(i), N: per})
 			}
+			// the parser's own sets and maps, held while real left-recursive grammars are parsed
+			insitu := 30
+			if tier == "thorough" {
+				insitu = 300
+			}
+			for i := 0; i < 8; i++ {
+				jobs = append(jobs, run.Job{Family: "in-situ", S: "mutual", Seed: seed*1000 + 500 + int64(i), N: insitu, P: map[string]int{"inputs": 4, "maxlen": 8}})
+				jobs = append(jobs, run.Job{Family: "in-situ", S: "layered", Seed: seed*1000 + 600 + int64(i), N: insitu, P: map[string]int{"inputs": 4}})
+			}
+			jobs = append(jobs, run.Job{Family: "in-situ", S: "corpus"})
 			first := len(newC15Pool().enumOps(3, 3))
 			for lo := 0; lo < first; lo += 2 {
 				hi := lo + 2
@@ -378,7 +483,8 @@ func init() {
 			cov["rule"] = "a case is one prefix of an operation history (NewIntSet/Insert/Union, NewIntMap/Inc/Filter, each applied to any earlier value) " +
 				"after which EVERY value produced so far is re-read (Len/Each, Keys/Get/Each) and compared with a plain Go model; " +
 				"non-trivial = the history applied an operation to a non-empty earlier value (shared history); distinct = distinct history text. " +
-				"families: seeded random histories (4-19 ops, domain 3-8) and every sequence of the small scope (domain {0,1,2}, lists up to 3, depth 3 quick / 4 thorough)"
+				"families: seeded random histories (4-19 ops, domain 3-8 or 20-60, negative and extreme values), every sequence of the small scope (domain {0,1,2}, lists up to 3, depth 3 quick / 4 thorough), " +
+				"and IN SITU: probes around every sub-parser of real left-recursive grammars (mutual-LR, layered-LR, seed corpus) hold every curtailing-parser set returned and every left-recursion context passed during a parse and re-read them at its end"
 			cov["exhaustive_small_scope"] = true
 			if a.Counters["values_reread"] == 0 {
 				return "no value was re-read"
